@@ -103,7 +103,13 @@ func Sim(t *testing.T, b *Base, kills []simrt.Kill, body func()) (rep *simrt.Rep
 	cfg := simrt.Config{Tape: ExpandTape(b.Tape), MaxSteps: b.MaxSteps, Kills: kills, KeepTrace: os.Getenv("VERIF_TRACE") != ""}
 	defer func() {
 		if r := recover(); r != nil {
-			harnessErr = fmt.Sprintf("panic around bubble: %v", r)
+			msg := fmt.Sprint(r)
+			if rep != nil && rep.Deadlock && strings.Contains(msg, "blocked goroutines remain") {
+				// the scheduler's verdict stands: the tasks it found blocked for good sit in real channel
+				// operations (annotated, but not unwindable), which is what synctest complains about on exit
+				return
+			}
+			harnessErr = "panic around bubble: " + msg
 		}
 	}()
 	bubble := func(tt *testing.T) {
